@@ -95,6 +95,10 @@ pub fn check_components(text: &str, t: &mut Tally, wit: &dyn Fn(Value) -> Value)
     // auxiliaries are re-assigned when the written file is read: a share moves by the rounding of all the
     // shares of its system, and by more when the outputs that drive the split are themselves rounded
     let aux_lines_of = |id: i32| c1.data.iter().filter(|e| e.is_aux() && e.id() == id).count();
+    // at steps without output the auxiliaries are split by annual shares, which are f32 sums over all the steps: the
+    // shares add up to 1 only within the accumulation error of n terms (same n-aware tolerance as C06)
+    let n_steps = c1.data.iter().map(|e| e.values().len()).max().unwrap_or(1) as f64;
+    let rel_aux = 4e-6 + 1.5e-7 * n_steps;
     let out_rounded = |id: i32| c1.data.iter().any(|e| e.is_out() && e.id() == id && e.values().iter().any(|x| !on_grid(*x)));
     // per-system totals of the auxiliaries are always conserved within the rounding of their lines
     {
@@ -114,7 +118,7 @@ pub fn check_components(text: &str, t: &mut Tally, wit: &dyn Fn(Value) -> Value)
         let (t1, t2) = (tot(&c1), tot(&c2));
         for (id, v) in &t1 {
             let slack = 0.00501 * aux_lines_of(*id) as f64;
-            let ok = t2.get(id).map(|w| v.len() == w.len() && v.iter().zip(w.iter()).all(|(x, y)| (x - y).abs() <= slack + 1e-6 * x.abs())).unwrap_or(v.iter().all(|x| x.abs() <= slack));
+            let ok = t2.get(id).map(|w| v.len() == w.len() && v.iter().zip(w.iter()).all(|(x, y)| (x - y).abs() <= slack + rel_aux * x.abs())).unwrap_or(v.iter().all(|x| x.abs() <= slack));
             if !ok {
                 t.violation("C18.component_values_change", format!("auxiliary energy of system {id}: {:?} read back as {:?}", v, t2.get(id)), || wit(json!({"written": written})));
             }
@@ -136,7 +140,8 @@ pub fn check_components(text: &str, t: &mut Tally, wit: &dyn Fn(Value) -> Value)
                     0
                 };
                 let slack = 0.00501 * if is_aux { aux_lines_of(k.1) as f64 } else { (*nl + use_lines) as f64 };
-                if v.len() != w.len() || v.iter().zip(w.iter()).any(|(x, y)| (x - y).abs() > slack + 1e-6 * x.abs()) {
+                let rel = if is_aux { rel_aux } else { 1e-6 };
+                if v.len() != w.len() || v.iter().zip(w.iter()).any(|(x, y)| (x - y).abs() > slack + rel * x.abs()) {
                     t.violation("C18.component_values_change", format!("component {:?}: {:?} read back as {:?}", k, v, w), || wit(json!({"written": written})));
                 }
                 // comments of the lines (generated completions may merge or vanish; declared ones stay)
